@@ -54,6 +54,7 @@ struct Shared {
   pthread_mutex_t errmx = PTHREAD_MUTEX_INITIALIZER;
   // litmus
   volatile pint x = 0, y = 0, flag = 0; long data = 0;
+  volatile psize px = 0, py = 0, pflag = 0;   // pointer-width variants of the litmus words (width = p)
   std::atomic<int> r0{-1}, r1{-1};
   std::atomic<long> forbidden{0};
   std::atomic<long> spin_arrive{0};
@@ -61,6 +62,9 @@ struct Shared {
 Shared *G = nullptr;
 void set_error(const string &e) { pthread_mutex_lock(&G->errmx); if (G->error.empty()) G->error = e; pthread_mutex_unlock(&G->errmx); G->has_error.store(true); }
 
+// spin barrier wait: tight while the partner is running (both sides leave within nanoseconds of each other), but yields once the
+// partner has evidently lost its CPU - otherwise every crossing costs a whole time slice on an oversubscribed machine
+inline void spin_until_at_least(std::atomic<long> &v, long want) { for (unsigned spins = 0; v.load() < want; spins++) if (spins > 20000) sched_yield(); }
 inline void noise(unsigned &st) {
   st = st * 1103515245u + 12345u;
   unsigned k = (st >> 16) & 31;
@@ -127,11 +131,11 @@ void *worker(void *arg) {
     // every round the word starts at T and every thread decrements once: exactly one dec_and_test may return TRUE per round
     for (int i = 0; i < g.c.N; i++) {
       if (ti == 0) { p_atomic_int_set(&g.word, (pint)g.c.T); g.trues = 0; }
-      g.spin_arrive.fetch_add(1); while (g.spin_arrive.load() < (long)g.c.T * (3 * i + 1)) {}
+      g.spin_arrive.fetch_add(1); spin_until_at_least(g.spin_arrive, (long)g.c.T * (3 * i + 1));
       if (p_atomic_int_dec_and_test(&g.word)) g.trues++;
-      g.spin_arrive.fetch_add(1); while (g.spin_arrive.load() < (long)g.c.T * (3 * i + 2)) {}
+      g.spin_arrive.fetch_add(1); spin_until_at_least(g.spin_arrive, (long)g.c.T * (3 * i + 2));
       if (ti == 0 && g.trues != 1) { set_error("dec_and_test returned TRUE " + std::to_string(g.trues.load()) + " times in one countdown of " + std::to_string(g.c.T) + " to zero (round " + std::to_string(i) + "): exactly the decrement that reaches zero must report TRUE"); }
-      g.spin_arrive.fetch_add(1); while (g.spin_arrive.load() < (long)g.c.T * (3 * i + 3)) {}
+      g.spin_arrive.fetch_add(1); spin_until_at_least(g.spin_arrive, (long)g.c.T * (3 * i + 3));
       if (!g.error.empty()) break;
     }
   } else if (k == "casloop") {
@@ -147,13 +151,14 @@ void *worker(void *arg) {
     for (int i = 0; i < g.c.N; i++) {
       // no verdict here depends on elapsed time: "never observed" is only reported once thread 0's set call is known to have
       // returned (seq_cst harness flag) and a later get still misses it; an error never skips the barrier (the others wait there)
-      if (ti == 0) { g.data = 1000 + i; p_atomic_int_set(&g.flag, i + 1); g.t0_done.store(i + 1); }
+      const bool pw = g.c.width == 'p';
+      if (ti == 0) { g.data = 1000 + i; if (pw) p_atomic_pointer_set((void *)&g.pflag, (ppointer)(psize)(i + 1)); else p_atomic_int_set(&g.flag, i + 1); g.t0_done.store(i + 1); }
       else {
         bool seen = false;
         for (long spins = 0; !seen; spins++) {
           bool after = g.t0_done.load() == i + 1;
-          if (p_atomic_int_get(&g.flag) == i + 1) seen = true;
-          else if (after) { set_error("message passing: p_atomic_int_get does not return the value stored by a p_atomic_int_set call that had already returned"); break; }
+          if ((pw ? (long)(psize)p_atomic_pointer_get((void *)&g.pflag) : (long)p_atomic_int_get(&g.flag)) == i + 1) seen = true;
+          else if (after) { set_error(string("message passing: ") + (pw ? "p_atomic_pointer_get" : "p_atomic_int_get") + " does not return the value stored by a set call that had already returned"); break; }
           else if (spins > 100000) sched_yield();
         }
         if (seen && g.data != 1000 + i) set_error("message passing: stale data read after the flag was observed (set/get are not barriers)");
@@ -166,11 +171,24 @@ void *worker(void *arg) {
     // tight spin barriers (monotonic counter) so that both threads issue store;load within nanoseconds of each other
     unsigned jitter = st;
     for (int i = 0; i < g.c.N; i++) {
-      if (ti == 0) { p_atomic_int_set(&g.x, 0); p_atomic_int_set(&g.y, 0); }
-      g.spin_arrive.fetch_add(1); while (g.spin_arrive.load() < 2L * (3 * i + 1)) {}
+      const bool pw = g.c.width == 'p';
+      if (ti == 0) { p_atomic_int_set(&g.x, 0); p_atomic_int_set(&g.y, 0); p_atomic_pointer_set((void *)&g.px, NULL); p_atomic_pointer_set((void *)&g.py, NULL); }
+      g.spin_arrive.fetch_add(1); spin_until_at_least(g.spin_arrive, 2L * (3 * i + 1));
       jitter = jitter * 1103515245u + 12345u;
       for (volatile unsigned d = 0; d < ((jitter >> 16) & 15) * (unsigned)(ti == 0); d++) {}
-      if (k == "sb") {
+      if (pw) {
+        ppointer one = (ppointer)(psize)1;
+        if (k == "sb") {
+          if (ti == 0) { p_atomic_pointer_set((void *)&g.px, one); g.r0 = (int)(psize)p_atomic_pointer_get((void *)&g.py); }
+          else if (ti == 1) { p_atomic_pointer_set((void *)&g.py, one); g.r1 = (int)(psize)p_atomic_pointer_get((void *)&g.px); }
+        } else if (k == "sbset") {
+          if (ti == 0) { p_atomic_pointer_set((void *)&g.px, one); g.r0 = (int)g.py; }
+          else if (ti == 1) { p_atomic_pointer_set((void *)&g.py, one); g.r1 = (int)g.px; }
+        } else {
+          if (ti == 0) { g.px = 1; g.r0 = (int)(psize)p_atomic_pointer_get((void *)&g.py); }
+          else if (ti == 1) { g.py = 1; g.r1 = (int)(psize)p_atomic_pointer_get((void *)&g.px); }
+        }
+      } else if (k == "sb") {
         if (ti == 0) { p_atomic_int_set(&g.x, 1); g.r0 = p_atomic_int_get(&g.y); }
         else if (ti == 1) { p_atomic_int_set(&g.y, 1); g.r1 = p_atomic_int_get(&g.x); }
       } else if (k == "sbset") {
@@ -180,9 +198,9 @@ void *worker(void *arg) {
         if (ti == 0) { g.x = 1; g.r0 = p_atomic_int_get(&g.y); }
         else if (ti == 1) { g.y = 1; g.r1 = p_atomic_int_get(&g.x); }
       }
-      g.spin_arrive.fetch_add(1); while (g.spin_arrive.load() < 2L * (3 * i + 2)) {}
+      g.spin_arrive.fetch_add(1); spin_until_at_least(g.spin_arrive, 2L * (3 * i + 2));
       if (ti == 0 && g.r0 == 0 && g.r1 == 0) g.forbidden++;
-      g.spin_arrive.fetch_add(1); while (g.spin_arrive.load() < 2L * (3 * i + 3)) {}
+      g.spin_arrive.fetch_add(1); spin_until_at_least(g.spin_arrive, 2L * (3 * i + 3));
     }
   }
   return NULL;
@@ -286,13 +304,13 @@ Outcome run_case(const Case &c) {
     o.nontrivial = T >= 2;
   } else if (c.kind == "mp") { o.nontrivial = T >= 2; }
   else if (c.kind.rfind("sb", 0) == 0) {
-    if (g.forbidden > 0) fail("store-buffering", string(c.kind == "sbset" ? "[set + plain load] " : c.kind == "sbget" ? "[plain store + get] " : "") + "both threads read 0 after writing 1 in " + std::to_string(g.forbidden.load()) + " of " + std::to_string(c.N) + " rounds: p_atomic_int_set/get are not full barriers");
+    if (g.forbidden > 0) fail("store-buffering", string(c.kind == "sbset" ? "[set + plain load] " : c.kind == "sbget" ? "[plain store + get] " : "") + "both threads read 0 after writing 1 in " + std::to_string(g.forbidden.load()) + " of " + std::to_string(c.N) + " rounds: " + (c.width == 'p' ? "p_atomic_pointer_set/get" : "p_atomic_int_set/get") + " are not full barriers");
     o.nontrivial = true;
   }
   pthread_barrier_destroy(&g.bar);
   p_mutex_free(g.m); p_spinlock_free(g.s); p_rwlock_free(g.rw); p_cond_variable_free(g.cv_ne); p_cond_variable_free(g.cv_nf);
   o.fp = vl::fnv1a(to_text(c));
-  vl::stats().klass("kind_" + c.kind + (c.kind.find("lock") != string::npos ? string("_") + c.lock : string("")));
+  vl::stats().klass("kind_" + c.kind + (c.kind.find("lock") != string::npos ? string("_") + c.lock : (c.kind.rfind("sb", 0) == 0 || c.kind == "mp" || c.kind == "ticket" || c.kind == "casloop") ? string("_") + c.width : string("")));
   G = nullptr;
   return o;
 }
@@ -307,7 +325,8 @@ rc::Gen<Case> genCase(bool tsan, bool thorough) {
                   [scale, tsan](const std::tuple<string, int, int, char, int, char> &t) {
                     Case c; c.kind = std::get<0>(t); c.T = std::get<1>(t); c.N = std::get<2>(t) * scale; c.lock = std::get<3>(t); c.noise = (unsigned)std::get<4>(t); c.width = std::get<5>(t);
                     if (c.kind == "mp") c.N = std::min(c.N, 3000);
-                    if (c.kind.rfind("sb", 0) == 0) { c.N = tsan ? 2000 : 300000; c.T = 2; }
+                    if (c.kind.rfind("sb", 0) == 0) { c.N = tsan ? 2000 : 300000; c.T = 2; c.width = (c.noise % 2) ? 'p' : 'i'; }
+                    if (c.kind == "mp") c.width = (c.noise % 2) ? 'p' : 'i';
                     if (c.kind == "zerorace") { c.N = tsan ? 3000 : 60000; c.T = std::min(c.T, 6); }
                     if (c.kind == "bbuf") { c.N = std::min(c.N, tsan ? 120 : 3000); if (c.T % 2) c.T++; c.T = std::min(c.T, tsan ? 6 : 12); }
                     if (c.kind == "thr") { c.T = std::min(c.T, 8); c.N = std::min(c.N, 2000); }
